@@ -12,10 +12,15 @@ void *ares_malloc_zero(size_t n) { void *p = ares_malloc(n); if (p) memset(p, 0,
 void *ares_realloc(void *p, size_t n) { if (nondet_bool()) return NULL; return realloc(p, n); }
 void *ares_realloc_zero(void *p, size_t o, size_t n) { if (nondet_bool()) return NULL; void *q = realloc(p, n); if (q && n > o) memset((char *)q + o, 0, n - o); return q; }
 #else
+#ifdef VERIF_NO_ALLOC_FAIL
+#define ALLOC_FAILS 0
+#else
+#define ALLOC_FAILS nondet_bool()
+#endif
 void *ares_malloc(size_t n)
 {
   if (n == 0) return NULL;
-  if (nondet_bool()) return NULL;
+  if (ALLOC_FAILS) return NULL;
   void *p = malloc(n);
   __CPROVER_assume(p != NULL);
   return p;
@@ -37,16 +42,17 @@ void *ares_malloc_zero(size_t n)
 /* bounded (B-tier) harnesses: exact semantics, small sizes */
 void *ares_realloc_zero(void *ptr, size_t orig_size, size_t new_size)
 {
-  if (nondet_bool()) return NULL;
+  if (ALLOC_FAILS) return NULL;
   unsigned char *q = malloc(new_size);
   __CPROVER_assume(q != NULL);
-  for (size_t i = 0; i < new_size; i++) q[i] = (ptr != NULL && i < orig_size) ? ((unsigned char *)ptr)[i] : 0;
+  __CPROVER_array_set(q, 0);
+  if (ptr != NULL) for (size_t i = 0; i < orig_size; i++) if (i < new_size) q[i] = ((unsigned char *)ptr)[i];
   if (ptr != NULL) free(ptr);
   return q;
 }
 void *ares_realloc(void *p, size_t n)
 {
-  if (nondet_bool()) return NULL;
+  if (ALLOC_FAILS) return NULL;
   unsigned char *q = malloc(n);
   __CPROVER_assume(q != NULL);
   size_t o = p != NULL ? __CPROVER_OBJECT_SIZE(p) : 0;
